@@ -141,4 +141,16 @@ theorem procConn_choose_vncAuth (env : Env) (scr : Screen) (hs : List Nat) (rand
   unfold runHandler sendChallenge
   simp [hb, hp, secVncAuth_ne_secNone, wr]
 
+/-- `recv` then `proc` on connection `cid`, in terms of `procConn` -/
+theorem getConn_recv_proc (fixed : Bool) (env : Env) (screens : List Screen) (s : Proc) (cid : Nat)
+    (bytes : List UInt8) (c : Conn) (c' : List Nat → List UInt8 → Conn) (scr : Screen)
+    (hg : getConn s cid = some c)
+    (hp : c.peerClosed = false) (hs : screens[c.screen]? = some scr)
+    (h : ∀ hs' rand, (procConn fixed env scr hs' rand { c with inbuf := c.inbuf ++ bytes }).1 = c' hs' rand) :
+    getConn (step fixed env screens (step fixed env screens s (.recv cid bytes)) (.proc cid)) cid =
+      some (c' s.handlers s.rand) := by
+  have e1 := getConn_recv fixed env screens s cid bytes c hg hp
+  rw [getConn_proc fixed env screens _ cid _ scr e1 hs, h]
+  rfl
+
 end VncModel.Auth
